@@ -392,6 +392,7 @@ type Contract struct {
 	Trusted  bool // assume-contract
 	Counts   string // ghost call counter name
 	Opaque   bool // never inline even if no ensures
+	CallsOnly map[string][]string // package path -> the only functions of that package the body may call
 	InlineAtCallers bool
 	Body     SExpr  // pred / pure body
 	ResultType string // pure
@@ -692,6 +693,20 @@ func ReadContractFile(path, pkgPath string) ([]*Contract, error) {
 			case "counts":
 				// every call of this function increments the ghost counter ghostCount("<name>")
 				tgt.Counts = strings.TrimSpace(rest)
+			case "calls-only":
+				// calls-only <package path>: F, G, H  - a frame on library configuration: of that
+				// package the body calls these functions and no others
+				j := strings.Index(rest, ":")
+				if j < 0 {
+					return nil, fmt.Errorf("%s:%d: calls-only <package>: names", path, l.n)
+				}
+				if tgt.CallsOnly == nil {
+					tgt.CallsOnly = map[string][]string{}
+				}
+				pk := strings.TrimSpace(rest[:j])
+				for _, nm := range strings.Split(rest[j+1:], ",") {
+					tgt.CallsOnly[pk] = append(tgt.CallsOnly[pk], strings.TrimSpace(nm))
+				}
 			case "opaque":
 				tgt.Opaque = true
 			case "inline-at-callers":
